@@ -46,6 +46,29 @@ structure Cfg where
   maxTries : Nat       -- the literal of `backoff.WithMaxRetries(b, 10)` (deprecated mode only)
 deriving Repr
 
+/-- the retry bound of the deprecated mode as the model has it (`backoff.WithMaxRetries(b, 10)`);
+    `Props/C35.gen_max_retries` proves it equal to the literal regenerated from the source -/
+def maxRetries : Nat := 10
+
+def parseNat (cs : List Char) : Option Nat :=
+  if cs.isEmpty then none else
+  cs.foldl (fun acc c => match acc with
+    | none => none
+    | some n => if '0' ≤ c ∧ c ≤ '9' then some (n * 10 + (c.toNat - '0'.toNat)) else none) (some 0)
+
+/-- last argument of the rendered call `backoff.WithMaxRetries(<backoff>, <n>)` in a `callargs` fact -/
+def maxRetriesOfCalls (calls : List String) : Option Nat :=
+  calls.findSome? fun c =>
+    let l := c.toList
+    let pre := "backoff.WithMaxRetries(".toList
+    if l.take pre.length == pre then
+      -- text after the last ", " up to the closing parenthesis
+      let args := (l.drop pre.length).reverse
+      match args with
+      | ')' :: rest => parseNat ((rest.takeWhile (· != ' ')).reverse)
+      | _ => none
+    else none
+
 inductive Res where
   | ok
   | err (e : Err)
